@@ -48,6 +48,8 @@ func runOne(w *rec.Writer, d caseDesc) {
 		runE2E(w, d, nil)
 	case "D":
 		runAdmission(w, d)
+	case "S":
+		runSharedClones(w, d)
 	}
 }
 
@@ -92,6 +94,9 @@ func main() {
 	}
 	for i := 0; i < o.N/30; i++ {
 		runAdmission(w, caseDesc{Kind: "D", Seed: o.Seed, Idx: i})
+	}
+	for i := 0; i < o.N/40; i++ {
+		runSharedClones(w, caseDesc{Kind: "S", Seed: o.Seed, Idx: i})
 	}
 	runE2EBatch(w, o.Seed, nC)
 	closeE2E()
